@@ -65,5 +65,10 @@ def build(rec, tmpdir=None):
         if os.path.exists(path):
             os.unlink(path)
         f.save(path, format='NETCDF3_CLASSIC', verbose=0).close()
+        if rec.get('strip_varlist'):
+            # what generic netCDF tools do to character attributes: trailing blanks are gone
+            import netCDF4
+            with netCDF4.Dataset(path, 'a') as ds:
+                ds.setncattr('VAR-LIST', ds.getncattr('VAR-LIST').rstrip())
         f = P.pncopen(path, format='ioapi')
     return f
